@@ -17,17 +17,30 @@ for i in 1 2; do
   echo "## suite run $i" >>$LOG
   timeout 900 go test -vet=off -count=1 ./... >>$LOG 2>&1 || { echo "REJECT: suite fails"; tail -30 $LOG; git checkout -q -- .; exit 1; }
 done
-DEMODIR=$(python3 -c "import json;print(json.load(open('$OUT/m$K.json')).get('demo_dir','.'))")
-DEMOCMD=$(python3 -c "import json;print(json.load(open('$OUT/m$K.json'))['demo_cmd'])")
-case "$DEMODIR" in /*) DEMODIR=$(realpath --relative-to=$WT "$DEMODIR" 2>/dev/null || echo .);; esac
-DEMOCMD=$(echo "$DEMOCMD" | sed "s#cd /tmp/seed/$ID/wt[^ ;&]*##; s#^ *&& *##")
+PKG=$(grep -m1 '^package ' $OUT/m${K}_demo_test.go | awk '{print $2}')
+case "$PKG" in testdirectory*) DEMODIR=testdirectory;; *) DEMODIR=.;; esac
+DEMOCMD=$(python3 - <<PY
+import json,re
+c=json.load(open('$OUT/m$K.json'))['demo_cmd']
+m=re.search(r"-run[ =]+('([^']*)'|\"([^\"]*)\"|(\S+))",c)
+pat=(m.group(2) or m.group(3) or m.group(4)) if m else 'Test'
+flags=[]
+if '-race' in c: flags.append('-race')
+if '-tags verif' in c or '-tags=verif' in c: flags.append('-tags verif')
+m=re.search(r'-count[ =]+(\d+)',c)
+cnt=m.group(1) if m else '1'
+env=' '.join(re.findall(r'\b(GOMAXPROCS=\d+|GORACE=\S+)',c))
+print(("%s go test -vet=off -count=%s %s -run '%s' ." % (env,cnt,' '.join(flags),pat)).strip())
+PY
+)
+RUNDIR=$WT/$DEMODIR
 mkdir -p $WT/$DEMODIR; cp $OUT/m${K}_demo_test.go $WT/$DEMODIR/zz_demo_test.go
 echo "## demonstration on the changed code: (cd $DEMODIR && $DEMOCMD)" >>$LOG
-( cd $WT/$DEMODIR && timeout 900 bash -c "$DEMOCMD" ) >$LOG.c 2>&1; RC_CHANGED=$?
+( cd $RUNDIR && timeout 900 bash -c "$DEMOCMD" ) >$LOG.c 2>&1; RC_CHANGED=$?
 tail -40 $LOG.c >>$LOG
 git checkout -q -- .
 echo "## demonstration on the unchanged code" >>$LOG
-( cd $WT/$DEMODIR && timeout 900 bash -c "$DEMOCMD" ) >$LOG.u 2>&1; RC_CLEAN=$?
+( cd $RUNDIR && timeout 900 bash -c "$DEMOCMD" ) >$LOG.u 2>&1; RC_CLEAN=$?
 tail -15 $LOG.u >>$LOG
 rm -f $WT/$DEMODIR/zz_demo_test.go; git clean -fdq
 echo "changed rc=$RC_CHANGED clean rc=$RC_CLEAN"
